@@ -81,7 +81,7 @@ def oracle(line, impl_line):
         return C07.oracle(line, impl_line)
     mode, a = parse_case(line)
     o = parse_out(impl_line)
-    if o is None or o[0] == [888888]:
+    if o is None or o[0] == [18446744073710440504]:
         return "crashed or panicked"
     a = a + [[]] * (4 - len(a))
     cfg, wscript, order, wire, specs = a[0], a[1], a[2], a[3], a[4:]
